@@ -624,7 +624,8 @@ func (w *bWorld) clientStep(d *bDID) {
 			patches = nil
 		}
 
-		req, err := workload.Build(&workload.OpSpec{Type: operation.TypeCreate, Hash: hash, NextUpdate: d.Upd, NextRecovery: d.Rec, Patches: patches, OpaqueDocument: opaque, AnchorOrigin: origin})
+		req, err := workload.Build(&workload.OpSpec{Type: operation.TypeCreate, Hash: hash, NextUpdate: d.Upd, NextRecovery: d.Rec, Patches: patches, OpaqueDocument: opaque, AnchorOrigin: origin,
+			SuffixType: []string{"", "", "ipdb"}[w.mark%3]})
 		if err != nil {
 			w.fail("HARNESS", "client-build", err.Error())
 
